@@ -107,6 +107,7 @@ struct FuncParams {
   bool stack = true;
   bool vec = true;
   uint32_t vec_live = 0;         // x86: this many additional vector values stay live to the end (more than the register file holds -> vector spills)
+  uint32_t undef_reads = 0;      // this many extra virtual registers are read without ever being written (undefined values: only for functions that are never executed)
   bool avx = false;              // x86: the function uses AVX and enables it in its frame (the allocator then has to emit VEX moves / spills)
 };
 
